@@ -82,6 +82,17 @@ func init() {
 	}, Explanation: "wip"})
 }
 
+func init() {
+	registerProp(&propDef{ID: "C07", Rules: func(c *Ctx) {
+		c.ruleIgnoreScope()
+		c.ruleReportGate()
+		c.ruleGateBeforeDedup("testonly", "packageonly")
+		c.ruleLangEq("@ignore")
+		c.ruleAttach("@ignore")
+		c.rulePost("@ignore")
+	}, Explanation: "wip"})
+}
+
 func cmdCheck(args []string) int {
 	prop, tier := "", "quick"
 	for i := 0; i < len(args); i++ {
